@@ -28,7 +28,12 @@ impl LuaGlobalIndex {
 
     pub fn add_global_decl(&mut self, name: &str, decl_id: LuaDeclId) {
         let id = GlobalId::new(name);
-        self.global_decl.entry(id).or_default().push(decl_id);
+        // keep the declarations ordered by file and position, so that which one a reference
+        // resolves to does not depend on the order in which files were (re-)analysed
+        let decl_ids = self.global_decl.entry(id).or_default();
+        let key = (decl_id.file_id, decl_id.position);
+        let idx = decl_ids.partition_point(|it| (it.file_id, it.position) <= key);
+        decl_ids.insert(idx, decl_id);
     }
 
     pub fn get_all_global_decl_ids(&self) -> Vec<LuaDeclId> {
